@@ -17,6 +17,19 @@ Session._register_persistent / _remove_newly_deleted      `doFlush`
 Session.commit (expire_on_commit) / rollback              `Op.commit`, `Op.rollback`
 Session.get: identity-map hit (expired: refresh, row      `Op.get`
   gone → None and the state is discarded) or SELECT
+Session.begin_nested: SessionTransaction._take_snapshot    `Op.beginNested`: `doFlush`, then
+  flushes UNCONDITIONALLY (whatever `autoflush` says),      `sp := some db`
+  then SAVEPOINT; its `_new` / `_dirty` are weak           `spFresh`, `spDirty`
+nested.rollback(): ROLLBACK TO SAVEPOINT,                 `rolledBackNested`
+  _restore_snapshot(dirty_only=True): expunge what the
+  savepoint inserted or holds pending, revert deletions,
+  expire the states that are modified or in `_dirty`
+nested.commit(): flush, RELEASE SAVEPOINT                 `Op.releaseNested`
+a flush failing inside the savepoint rolls back the        `.integrity` with `rolledBackNested`
+  savepoint only (the harness then closes the nested
+  transaction with nested.rollback())
+Session.commit / rollback with a savepoint open go to      `sp := none`
+  the root
 
 CPython frees an object as soon as its last reference goes away (reference cycles:
 at the next gc.collect(), which the harness calls after every operation), so the
@@ -25,8 +38,12 @@ reference semantics without any collection is `step`.  Props/C48 proves that the
 two are observationally equal (database and values read), for every history.
 
 `app` is the application's reference: `get`/`add` acquire it, `drop` releases it,
-`set`/`del` need it.  autoflush is off in this model (C47); `rollback` always rolls a
-transaction back (the harness makes sure one is open).
+`set`/`del` need it.  autoflush is off in this model (C47; the harness switches it off by
+Session(autoflush=False) or by a no_autoflush block); `rollback` always rolls a
+transaction back (the harness makes sure one is open).  Savepoints nest one deep
+(`begin_nested` inside a savepoint is skipped).  An object deleted by a flush is forgotten by
+the model at that flush (the application forgot it at `delete`); that a rolled back savepoint
+puts a still living one back into the identity map is not modelled.
 
 Import-free, total, executable.
 -/
@@ -58,8 +75,12 @@ structure St where
   txn : Bool                         -- a transaction is open (only consulted with autobegin=False)
   fresh : Nat → Bool                 -- SessionTransaction._new (a WeakKeyDictionary): the instance
                                      -- at k was inserted by this transaction and is still alive
+  sp : Option DB := none             -- the open SAVEPOINT: the database when it was taken
+  spFresh : Nat → Bool := fun _ => false   -- nested `_new`: inserted inside the savepoint, alive
+  spDirty : Nat → Bool := fun _ => false   -- nested `_dirty`: flushed inside the savepoint, alive
 
-def St.init : St := ⟨fun _ => none, none, fun _ => none, fun _ => none, false, fun _ => false⟩
+def St.init : St := ⟨fun _ => none, none, fun _ => none, fun _ => none, false, fun _ => false,
+  none, fun _ => false, fun _ => false⟩
 
 inductive Op
   | get (k : Nat)
@@ -71,6 +92,9 @@ inductive Op
   | expireVal (k : Nat)      -- session.expire(obj, ["val"]): exactly the modified attribute
   | expireId (k : Nat)       -- session.expire(obj, ["id"]): an attribute without history
   | begin                    -- session.begin()
+  | beginNested              -- session.begin_nested()
+  | rollbackNested           -- session.get_nested_transaction().rollback()
+  | releaseNested            -- session.get_nested_transaction().commit()
   | flush
   | commit
   | rollback
@@ -97,7 +121,13 @@ def collect (st : St) : St :=
             -- the transaction only remembers "inserted here" for instances that are alive
             fresh := fun k => st.fresh k && (match st.objs k with
                                              | some o => o.app || strong o
-                                             | none => false) }
+                                             | none => false),
+            spFresh := fun k => st.spFresh k && (match st.objs k with
+                                                 | some o => o.app || strong o
+                                                 | none => false),
+            spDirty := fun k => st.spDirty k && (match st.objs k with
+                                                 | some o => o.app || strong o
+                                                 | none => false) }
 
 def anyBelow (n : Nat) (f : Nat → Bool) : Bool := (List.range n).any f
 
@@ -125,7 +155,24 @@ def rolledBack (st : St) : St :=
     objs := fun k => match st.objs k with
                      | some o => if st.fresh k then none else some (expiredObj o)
                      | none => none,
-    new := fun _ => none, txn := false, fresh := fun _ => false }
+    new := fun _ => none, txn := false, fresh := fun _ => false,
+    sp := none, spFresh := fun _ => false, spDirty := fun _ => false }
+
+/-- ROLLBACK TO SAVEPOINT + `_restore_snapshot(dirty_only=True)`: `d` = the database at the
+    savepoint.  What the savepoint inserted (and still knows) and what is pending is expunged,
+    pending deletions are reverted, the states that are modified or that a flush inside the
+    savepoint wrote (and that are still known) are expired; everything else stays as it is. -/
+def rolledBackNested (st : St) (d : DB) : St :=
+  { db := d, saved := st.saved,
+    objs := fun k => match st.objs k with
+                     | some o =>
+                       if st.spFresh k then none
+                       else if o.mod || o.touched || st.spDirty k then some (expiredObj o)
+                       else some { o with del := false }
+                     | none => none,
+    new := fun _ => none, txn := st.txn,
+    fresh := fun k => st.fresh k && !st.spFresh k,
+    sp := none, spFresh := fun _ => false, spDirty := fun _ => false }
 
 def flushRow (nw : Option (Int × Bool)) (o : Option Obj) (row : Option Int) : Option Int :=
   match nw, o with
@@ -157,7 +204,17 @@ def doFlush (c : Cfg) (st : St) : Option St :=
               objs := fun k => if k < c.n then flushObj (st.new k) (st.objs k) else st.objs k,
               new := fun k => if k < c.n then none else st.new k,
               txn := st.txn,
-              fresh := fun k => st.fresh k || (decide (k < c.n) && (st.new k).isSome) }
+              fresh := fun k => st.fresh k || (decide (k < c.n) && (st.new k).isSome),
+              sp := st.sp,
+              spFresh := fun k => st.spFresh k || (st.sp.isSome && decide (k < c.n) && (st.new k).isSome),
+              spDirty := fun k => st.spDirty k ||
+                (st.sp.isSome && decide (k < c.n) && (st.new k).isNone && strongOpt (st.objs k)) }
+
+/-- a failing flush rolls back to the nearest boundary: the savepoint when one is open -/
+def flushFailed (st : St) : St :=
+  match st.sp with
+  | some d => rolledBackNested st d
+  | none => rolledBack st
 
 /-! ### operations on one primary key: (pending entry, identity-map entry, row) ↦ new
 entries and the output -/
@@ -271,15 +328,32 @@ def stepLive (c : Cfg) (st : St) : Op → St × Out
   | .expireVal k => putSlot st k (expValSlot (st.new k) (st.objs k))
   | .expireId k => putSlot st k (expIdSlot (st.new k) (st.objs k))
   | .begin => (st, .skip)
+  | .beginNested =>
+    if st.sp.isSome then (st, .skip)
+    else match doFlush c st with
+      | none => (rolledBack st, .integrity)
+      | some st1 => ({ st1 with sp := some st1.db, spFresh := fun _ => false, spDirty := fun _ => false }, .done)
+  | .rollbackNested =>
+    match st.sp with
+    | none => (st, .skip)
+    | some d => (rolledBackNested st d, .done)
+  | .releaseNested =>
+    match st.sp with
+    | none => (st, .skip)
+    | some _ =>
+      match doFlush c st with
+      | none => (flushFailed st, .integrity)
+      | some st1 => ({ st1 with sp := none, spFresh := fun _ => false, spDirty := fun _ => false }, .done)
   | .flush =>
     match doFlush c st with
-    | none => (rolledBack st, .integrity)
+    | none => (flushFailed st, .integrity)
     | some st1 => (st1, .done)
   | .commit =>
     match doFlush c st with
-    | none => (rolledBack st, .integrity)
+    | none => (flushFailed st, .integrity)
     | some st1 =>
       ({ st1 with saved := none, txn := false, fresh := fun _ => false,
+                  sp := none, spFresh := fun _ => false, spDirty := fun _ => false,
                   objs := if c.eoc then (fun k => (st1.objs k).map (fun o => { o with val := none, mod := false })) else st1.objs }, .done)
   | .rollback => (rolledBack st, .done)
   | .len => (st, .num ((List.range c.n).filter (fun k => (st.objs k).isSome)).length)
@@ -314,6 +388,6 @@ def outsGc (c : Cfg) (st : St) : List Op → List Out
 
 def opOk (c : Cfg) : Op → Bool
   | .get k | .set k _ | .del k | .add k _ | .drop k | .expire k | .expireVal k | .expireId k => k < c.n
-  | .flush | .commit | .rollback | .len | .begin => true
+  | .flush | .commit | .rollback | .len | .begin | .beginNested | .rollbackNested | .releaseNested => true
 
 end SaVerif.Weakref
